@@ -21,10 +21,9 @@ CONSTANTS
   Family = "funds"
   EmitAt = 0
   MaxK = 2
-  MaxOps = 5
+  MaxOps = 6
 VIEW GView
 INIT GInit
-NEXT GNext
+NEXT GNextC
 CONSTRAINT GConstr
-INVARIANT Emit
 CHECK_DEADLOCK FALSE
